@@ -346,7 +346,28 @@ type flight struct {
 
 var inflight sync.Map // query hash -> *flight : identical queries are solved once per run
 
+var reFreshSym = regexp.MustCompile(`[^\s()|!]+![0-9]+`)
+
+// canonSMT renumbers the fresh-name counters (name!N) in order of first appearance: queries that differ only in the
+// counters handed out along different paths become textually equal and are solved once (a bijective renaming).
+func canonSMT(text string) string {
+	m := map[string]string{}
+	next := map[string]int{}
+	return reFreshSym.ReplaceAllStringFunc(text, func(tok string) string {
+		if r, ok := m[tok]; ok {
+			return r
+		}
+		i := strings.LastIndex(tok, "!")
+		base := tok[:i]
+		r := fmt.Sprintf("%s!%d", base, next[base])
+		next[base]++
+		m[tok] = r
+		return r
+	})
+}
+
 func (sv *Solver) solve(text string, canary bool) SolveResult {
+	text = canonSMT(text)
 	h := sha256.Sum256([]byte(text))
 	key := hex.EncodeToString(h[:])
 	if canary {
